@@ -228,6 +228,8 @@ fn permutation_events(seed: u64, thorough: bool, cli: Option<&str>) -> Vec<J> {
 fn input_order_events(cli: &str) -> Vec<J> {
     let inputs = r#"{"cfg": {"zeta": 1, "alpha": 2, "mid": 3, "k9": 4, "b": 5, "yy": 6, "c": 7, "omega": 8}, "rows": [{"q": 1, "a": 2, "m": 3, "z": 4, "e": 5}], "deep": {"inner": {"n": 1, "d": 2, "x": 3, "h": 4, "s": 5, "t": 6}}}"#;
     let progs = [
+        // closures that captured several values each, compared and searched for (their captured scopes are hash maps of their own)
+        "mk = (a, b, c) => (x => x * a + b - c)\np = mk(2, 3, 4)\nq = mk(2, 3, 4)\nw = mk(2, 3, 5)\noutput eq = [p == q, p != q, p == w, [p] == [q], includes([p], q), len(unique([p, q, w, p])), mk(1, 2, 3) == mk(1, 2, 3)]\noutput deq = (do { return p .== q })",
         "output k = keys(inputs.cfg)\noutput v = values(inputs.cfg)\noutput e = entries(inputs.cfg)",
         "output s = to_string(inputs.cfg)\noutput t = format(\"{}\", inputs.rows)",
         "output sp = [...inputs.deep.inner]\noutput m = {...inputs.cfg, extra: 1}\noutput first = keys(inputs.rows[0])[0]",
@@ -239,7 +241,7 @@ fn input_order_events(cli: &str) -> Vec<J> {
             let o = std::process::Command::new("timeout").arg("20").arg(cli).arg("-i").arg(inputs).arg(prog).stdin(std::process::Stdio::null()).output();
             match o { Ok(o) => format!("exit={:?} stdout={}", o.status.code(), String::from_utf8_lossy(&o.stdout).trim()), Err(e) => format!("spawn error {e}") }
         };
-        let runs: Vec<J> = (0..6).map(|_| json!([run()])).collect();
+        let runs: Vec<J> = (0..10).map(|_| json!([run()])).collect();
         out.push(json!({"ev":"runs","src":format!("-i <records of 5..8 keys> ; {}", prog.replace('\n', " ; ")),"inproc":[runs[0], runs[0]],"procs":runs}));
     }
     out
@@ -289,6 +291,8 @@ pub fn record(seed: u64, n: usize, cli: Option<&str>) -> Vec<J> {
             prog.push(format!("{n}(u1, u9)"));
             prog.push(format!("{n}(u3, \"a\")"));
         }
+        // string concatenation whose left operand is the newest value on the heap and already has a name
+        prog.extend(["w1 = \"foo\" + u5", "w2 = w1 + u5", "w3 = w2 + w2", "w1", "w4 = u2 + u2", "w5 = w4 + u2", "w4"].iter().map(|s| s.to_string()));
         prog.extend(["u1 via u6", "u9 where (x => x > 1)", "u1 into sort", "[...u1, ...u9]", "{...u3, b: 1}", "u1 + u1", "u4[0]"].iter().map(|s| s.to_string()));
         programs.push(prog);
     }
